@@ -152,6 +152,8 @@ def batch(prop, tier, base_seed, n_runs=None, budget_s=None, workers=None, out=s
     agg = Aggregate(prop)
     bad = []
     herr = []
+    kf = findings.load()
+    n_new = 0
     t0 = time.time()
     ctx = mp.get_context("fork")
     engine.get()  # import once in the parent: forked workers share it
@@ -185,7 +187,10 @@ def batch(prop, tier, base_seed, n_runs=None, budget_s=None, workers=None, out=s
                     agg.add(r)
                     if r["violations"]:
                         bad.append(r)
-                if (bad and len(bad) >= 8) or len(herr) >= 5:
+                        if any(findings.match_open(findings.signature(v), kf) is None for v in r["violations"]):
+                            n_new += 1
+                # stop early only for violations that are not listed known findings
+                if n_new >= 8 or len(herr) >= 5:
                     stop = True
                     n_runs = nxt
         except cf.process.BrokenProcessPool as e:
